@@ -47,8 +47,9 @@ def mkCf (name : Name) (star : Option Bool) (ivs : List Iv) : Except Err Var :=
 /-! ### minimisation  ‖Y_x‖  (ancestor_utils.py:94-135) -/
 
 /-- `minimize_counterfactual(variable, graph)`.
-`T = X ∩ An(Y)_{G_{\overline X}}`, `t = x ∩ T`.  AS-IS: an empty `t` still goes to the
-`CounterfactualVariable` constructor, which raises `ValueError`. -/
+`T = X ∩ An(Y)_{G_{\overline X}}`, `t = x ∩ T`.  When `t` is empty the result is the plain
+`Variable(name, star)` (after `fix:` F8a; before it the empty set went to the `CounterfactualVariable`
+constructor, which raises `ValueError`). -/
 def minimize (g : MG Name) (v : Var) : Except Err Var :=
   if !v.isCf then .ok v
   else do
@@ -56,7 +57,7 @@ def minimize (g : MG Name) (v : Var) : Except Err Var :=
     let A ← (g.removeInEdges X).ancestorsInclusive [v.name]
     let T := X.filter (fun x => decide (x ∈ A))
     let t := v.ivs.filter (fun i => decide (i.name ∈ T))
-    mkCf v.name v.star t
+    if t.isEmpty then pure { name := v.name, star := v.star } else mkCf v.name v.star t
 
 /-- `_minimize_set` -/
 def minimizeSet (g : MG Name) (vs : List Var) : Except Err (List Var) := do
@@ -141,18 +142,17 @@ def setIndexOf (sets : List (List Var)) (v : Name) : Option Nat :=
   (List.range sets.length).find? (fun i => decide (v ∈ bases ((sets[i]?).getD [])))
 
 /-- `_merge_frozen_sets_linked_by_bidirectional_edges`: every set is linked to itself; two sets are linked when a
-bidirected edge of the graph joins a base variable of one to a base variable of the other.
-`vertices_to_input_sets` is a `defaultdict(frozenset)`: a vertex outside every input set is mapped to the
-EMPTY frozenset, which then becomes a node (index `sets.length`) linked to every set that has a bidirected
-edge leaving the input sets. -/
+bidirected edge of the graph joins a base variable of one to a base variable of the other.  An edge with an
+endpoint outside every input set is skipped (after `fix:` F8b; before it `vertices_to_input_sets`, a
+`defaultdict(frozenset)`, mapped such a vertex to the EMPTY frozenset, which became a node linked to every set
+with a bidirected edge leaving the input sets). -/
 def mergeBidirected (g : MG Name) (sets : List (List Var)) : List (List Var) :=
   let sets := dedupSets sets
-  let n := sets.length
-  let self := (List.range n).map (fun i => (i, i))
+  let self := (List.range sets.length).map (fun i => (i, i))
   let links := g.bi.filterMap (fun e =>
-    let r1 := (setIndexOf sets e.1).getD n
-    let r2 := (setIndexOf sets e.2).getD n
-    if r1 ≠ r2 then some (r1, r2) else none)
+    match setIndexOf sets e.1, setIndexOf sets e.2 with
+    | some r1, some r2 => if r1 ≠ r2 then some (r1, r2) else none
+    | _, _ => none)
   let gr : MG Nat := MG.fromEdges [] [] (self ++ links)
   dedupSets (gr.districts.map (unionOf sets))
 
